@@ -79,11 +79,15 @@ TEXT = {
  "C08": {
   "level": "Machine-checked proofs (Coq, no axioms): adjacency of every derived configuration and intersection of adjacent majorities; complete "
            "validation of submitted configurations; actions only when the latest configuration and an own-term entry are committed and no transfer "
-           "runs (pre-repair guard refuted); follower adoption of the newest configuration entry. PARTIAL for the last clause of the property: the "
-           "derivation that configurations used by different leaders overlap (hence C01/C02 under reconfiguration) is not mechanised; the monitors "
-           "for C01/C02 run under membership-changing schedules instead.",
+           "runs (pre-repair guard refuted); follower adoption of the newest configuration entry. Cluster level (Props/C08_abs.v, model Abs/CfgRaft.v: "
+           "every node acts on the last configuration entry of its own log, committed or not; a leader appends a configuration only under exactly "
+           "those guards; any interleaving, loss, duplication, reordering of messages): election safety, log matching, leader completeness and "
+           "state-machine safety for every reachable state under membership changes, and a machine-checked counterexample for the variant without "
+           "the own-term-commit guard. The abstract reconfiguration protocol has no crash/snapshot steps (those are in Abs/Raft.v for a static voter "
+           "set) and is linked to the code through the node-level guard theorems and the per-event correspondence, not by a history checker; the "
+           "monitors for C01/C02 run under membership-changing schedules.",
   "design_ref": "DESIGN.md 5 (C08)", "note": NODE_NOTE,
-  "technique": "Coq proofs of reconfiguration rules + differential correspondence + targeted schedules (pending actions across leader change)",
+  "technique": "Coq inductive-invariant proof of Raft safety with single-voter membership changes (abstract protocol) + Coq proofs of the node-level reconfiguration rules + differential correspondence + targeted schedules",
  },
  "C20": {
   "level": "Machine-checked proof (Coq, no axioms) on a small model of the identity handshake (getConn/replyRPC/handleConn), the lock file and "
